@@ -19,7 +19,7 @@ def _profile_functions(store):
     if event == 'call':
       co = frame.f_code
       fn = co.co_filename
-      if fn.startswith(prefix):
+      if fn.startswith(prefix) and (co.co_flags & 0x2):
         store.add('%s:%s' % (fn[len(REPO) + 1:], getattr(co, 'co_qualname', co.co_name)))
   return prof
 
@@ -53,7 +53,8 @@ def run_job(args):
     engine.KNOWN = known
     engine.JOBNAME = job.get('name', '')
     soft = tuple(getattr(mod, 'INDUCTION_PREFIXES', ()))
-    E = engine.explore(wrapped, max_paths=job.get('max_paths', opts.get('max_paths', 2000000)), soft_prefixes=soft or ('\0',), shard=tuple(job['shard']) if job.get('shard') else None)
+    E = engine.explore(wrapped, max_paths=job.get('max_paths', opts.get('max_paths', 2000000)), soft_prefixes=soft or ('\0',), shard=tuple(job['shard']) if job.get('shard') else None,
+                       max_seconds=job.get('max_seconds', opts.get('max_seconds', 1500)))
     fails = []
     hard = [f for f in E.failures if not soft or not f.name.startswith(soft)]
     softf = [f for f in E.failures if soft and f.name.startswith(soft)]
@@ -118,7 +119,7 @@ def main(argv=None):
   # a job may ask to be split over n workers by its first harness-level decisions
   ex = []
   for j in jobs:
-    n = j.get('shards', 1)
+    n = 1 if os.environ.get('VERIF_NOSHARD') else j.get('shards', 1)
     if n <= 1: ex.append(j); continue
     D = j.get('shard_depth', max(1, (n - 1).bit_length()))
     for i in range(n):
@@ -126,7 +127,7 @@ def main(argv=None):
       ex.append(jj)
   jobs = ex
   jobs.sort(key=lambda j: -j.get('cost', 1))
-  opts = {}
+  opts = {'max_seconds': 900 if tier == 'quick' else 7200}
   results = []
   if a.serial or a.procs == 1:
     for j in jobs:
